@@ -48,6 +48,20 @@ Theorem C07_listing_plain_last : forall sp sfx fixed i k (g0 g1 : bool) l,
   exists l1 l2 l3, rev (sort_by_key sfx l) = l1 ++ n1 :: l2 ++ n0 :: l3.
 Proof. exact listing_plain_last. Qed.
 
+(* ... and in which the files of a Numbers / NumbersDirect family  <fixed>_r<number>  are listed by their NUMBER, the higher one
+   first - however many digits the number has (r100000 before r99999: the sort key reads the number behind the last "_r" and
+   compares it numerically; with an empty fixed name part the names are r<number> without "_", and the number is the one
+   behind the leading "r"), whatever the suffix is and whatever the fixed name part contains; compressed or not *)
+Theorem C07_listing_number_order : forall f sp sfx fixed j k1 k2 (g1 g2 : bool),
+  fsfx sp = sfx -> j <> [] ->
+  strip_suffix (dot :: gz_sfx) (as_name sp fixed (Some j)) = None ->
+  (k1 < k2)%N ->
+  let n1 := add_gz g1 (as_name sp fixed (Some (number_infix k1))) in
+  let n2 := add_gz g2 (as_name sp fixed (Some (number_infix k2))) in
+  In n1 (related_files f sfx fixed) -> In n2 (related_files f sfx fixed) ->
+  exists l1 l2 l3, related_files f sfx fixed = l1 ++ n2 :: l2 ++ n1 :: l3.
+Proof. exact related_files_number_order. Qed.
+
 
 (* compression is lossless: the archive holds exactly the content of the file it replaces, the original is gone,
    every other file is untouched *)
@@ -93,10 +107,11 @@ Local Open Scope nat_scope.
 (* END TO END, Numbers naming with KeepLogFiles / KeepCompressedFiles / KeepLogAndCompressedFiles, cleanup in the logging thread, EVERY history of
    one run: in the end exactly rCURRENT, the newest n closed files (plain, as they were closed) and the next m (complete archives of exactly what the
    file held) exist; everything older is gone; what survives, read by number and then rCURRENT, is a suffix of what was written
-   (side conditions: the suffix does not end in .gz, at most 100000 rotations - both shown necessary by counterexamples in Flw/NumCleanup.v) *)
+   (side condition: the suffix does not end in .gz - shown necessary by counterexamples in Flw/NumCleanup.v.  Since the repair of the
+   listing order there is NO BOUND on the number of rotations, with or without a fixed name part) *)
 Theorem C07_numbers_cleanup c crit k n m t0 off ops closed cur :
   numkcfg c crit k -> klim k = Some (n, m) -> Forall basic_op ops ->
-  sfx_ok (c_spec c) -> (N.of_nat (length closed) <= 100000)%N ->
+  sfx_ok (c_spec c) ->
   a_run None ops (snd (run (fst (step (sys0 t0 off) (OStart c))) ops)) = Some (closed, cur) ->
   let f := wfs (s_w (fst (run (sys0 t0 off) (OStart c :: ops ++ [OStop])))) in
   let L := length closed in let lo := L - (n + m) in let mid := L - n in
@@ -139,7 +154,7 @@ Require Import FL.Flw.WorldPar FL.Flw.LinkSim FL.Flw.BgSim.
 (* the same for cleanup in the BACKGROUND thread, under the model's / harness's scheduling (each request is finished before the next operation) *)
 Theorem C07_numbers_cleanup_bg c crit k n m t0 off ops closed cur :
   numkcfg (nobg c) crit k -> klim k = Some (n, m) -> Forall basic_op ops ->
-  sfx_ok (c_spec c) -> (N.of_nat (length closed) <= 100000)%N ->
+  sfx_ok (c_spec c) ->
   a_run None ops (snd (run (fst (step (sys0 t0 off) (OStart (nobg c)))) ops)) = Some (closed, cur) ->
   let f := wfs (s_w (fst (run (sys0 t0 off) (OStart c :: ops ++ [OStop])))) in
   let L := length closed in let lo := L - (n + m) in let mid := L - n in
@@ -168,6 +183,8 @@ Check C07_tail_sound. Check C07_limits_sound. Check C07_listing_sorted. Check C0
 Print Assumptions C07_listing_sorted.
 Print Assumptions C07_listing_restart_order.
 Print Assumptions C07_listing_plain_last.
+Check C07_listing_number_order.
+Print Assumptions C07_listing_number_order.
 Print Assumptions C07_tail_sound.
 Print Assumptions C07_limits_sound.
 Check C07_numbers_cleanup_bg.
@@ -179,11 +196,11 @@ Print Assumptions C07_numbers_cleanup_bg.
    KeepCompressedFiles(m): n0 = 0): in the end exactly the current file and the newest n - 1 closed files (plain, as they
    were closed) and the next m (complete archives of exactly what the file held) exist; everything older is gone; the current
    file is never compressed or removed; what survives, read by number, is a suffix of what was written (side conditions: the
-   suffix does not end in .gz, the index of the current file is below 100000 - both shown necessary in Flw/NumDCleanup.v) *)
+   suffix does not end in .gz - shown necessary in Flw/NumDCleanup.v; no bound on the index of the current file any more) *)
 Require Import FL.Flw.NumDInv FL.Flw.NumDRun FL.Flw.NumDCleanupStep FL.Flw.NumDCleanupRun FL.Flw.NumDCleanup FL.Flw.NumKillRestart.
 Theorem C07_numbersdirect_cleanup c crit k n m t0 off ops closed cur :
   numdkcfg c crit k -> klimd k = Some (n, m) -> Forall basic_op ops ->
-  sfx_ok (c_spec c) -> (N.of_nat (length closed) < 100000)%N ->
+  sfx_ok (c_spec c) ->
   a_run None ops (snd (run (fst (step (sys0 t0 off) (OStart c))) ops)) = Some (closed, cur) ->
   let f := wfs (s_w (fst (run (sys0 t0 off) (OStart c :: ops ++ [OStop])))) in
   let L := length closed in let lo := S L - (n + m) in let mid := S L - n in
